@@ -144,6 +144,40 @@ def complete_clause(lc, A, phi):
     return z3.ForAll([s, d], body)
 
 
+cyc_node = z3.Function('eg_cycle_node', F, H, H)
+cyc_next = z3.Function('eg_cycle_next', F, H, H)
+
+
+def eg_gfp_schema(f, edgefn):
+    """greatest-fixpoint principle of E G phi (second-order, trusted semantics): EVERY set Z whose
+    members satisfy phi and have a successor in Z lies within sat(f)"""
+    phi = kid0(kid0(f))
+    Z = z3.Const('Z!gfp', hp.SetH)
+    s, d = z3.Const('s!gfp', H), z3.Const('d!gfp', H)
+    post = z3.ForAll([s], z3.Implies(Z[s], z3.And(sat(phi)[s], z3.Exists([d], z3.And(edgefn(s, d), Z[d])))))
+    return z3.ForAll([Z], z3.Implies(post, z3.ForAll([s], z3.Implies(Z[s], sat(f)[s]))))
+
+
+def eg_trusted(f, edgefn, Ep, edge_trigger=None):
+    """what the proof of _checkEG assumes beyond the fixpoint axioms (DESIGN.md 10.7): named clauses"""
+    phi = kid0(kid0(f))
+    a, b, s = z3.Const('a!egt', H), z3.Const('b!egt', H), z3.Const('s!egt', H)
+    cn, nx_ = cyc_node(f, s), cyc_next(f, s)
+    return [
+        # definition of a name: the transition relation restricted to phi-states
+        ('Ephi_def', hp.FA([a, b], Ep[a, b] == z3.And(edgefn(a, b), sat(phi)[a], sat(phi)[b]),
+                           [Ep[a, b]] + ([edge_trigger(a, b)] if edge_trigger else []))),
+        ('gfp_principle', eg_gfp_schema(f, edgefn)),
+        # CGP00 Lemma 4.1 (completeness half, finite structures): an infinite phi-path from s
+        # revisits some node; that node is reached through phi-states and lies on a phi-cycle
+        ('finite_structure_cycle_lemma', z3.ForAll([s], z3.Implies(sat(f)[s], z3.And(
+            hp.rtc(Ep)[s, cn], Ep[cn, nx_], hp.rtc(Ep)[nx_, cn])), patterns=[sat(f)[s]])),
+        ('rtc_axioms', z3.And(hp.rtc_axioms())),
+        ('rtc_induction', hp.RTC_INDUCTION),
+        ('rtc_converse', hp.RTC_CONVERSE),
+    ]
+
+
 def install(E):
     from .formula import FormulaExt
     E.ext.append(FormulaExt())
@@ -388,7 +422,7 @@ def install(E):
         touches=TOUCH, loop_touches={2: {'dd', 'dv', 'sets'}, 3: {'dd', 'dv', 'sets'}, 4: {'dd', 'dv', 'sets'}},
         loops={2: eu_l2, 3: eu_l3, 4: eu_l4},
         hints={'call': {'DiGraph.get_reachable_set_from': eu_reach_hint},
-               'heavy_requires': ('kripke_wf',), 'slice_more': r':cut[345]$',
+               'heavy_requires': ('kripke_wf',), 'slice_more': r':cut[345]$', 'schemas': ('lfp_principle',),
                # structural invariants of the constructed graph do not need the semantics axioms
                'slice_heavy': r':(edges_phi0|edges_phi1|edges_phi1_so_far|edges_sound|edges_kept|nodes_within|nodes_added|subgraph_|memo_below|operands_|'
                               r'iterated_|current|operand_sets|since_entry|phi[01]:preserved|nodes_cover_phi0:preserved|memo_inv:preserved|:cut3$|:cut4$|:cut5$)',
@@ -420,12 +454,138 @@ def install(E):
         touches={'sets', 'fd', 'fv'}, hints={'dict_kind_default': 'fdict'}, owner='C01',
         note='object formulas, F=None; the text/parser leg and the fairness leg are bounded only'))
 
+    # -- _checkEG ---------------------------------------------------------------------------------
+    # The code builds G' = reversed( K restricted to phi-states ), takes the components of G' that
+    # contain a cycle (more than one node, or a self loop), and returns what G' reaches from them.
+    # Proof: soundness by the greatest-fixpoint principle at Z := result (every node of the result
+    # satisfies phi and has a K-successor in the result); completeness by the finite-structure
+    # lemma (every EG-state reaches, through phi-states, a node on a phi-cycle), the ASSUMED contract
+    # of compute_SCCs and induction on the closure.  Trusted: see run.TRUSTED['C01'].
+    def eg_skolems(c):
+        c.sk['Ephi'] = hp.fresh('E_phi', hp.Rel)
+
+    def eg_edge(c):
+        h0, k = c.h0, c.kripke.t
+        return lambda s, d: edge(h0, k, s, d)
+
+    def eg_requires(c):
+        out = common_requires(c, lambda f: z3.And(is_tag(f, 'E'), is_tag(kid0(f), 'G')))
+        if c.side == 'callee':
+            h0, k = c.h0, c.kripke.t
+            out += eg_trusted(c.formula.t, eg_edge(c), c.sk['Ephi'], lambda a, b: succ(h0, k, a)[b])
+        return out
+
+    def eg_scc_hint(cc, c, path):
+        cc.sk['scc'] = c
+        return []
+
+    def eg_reach_hint(cc, c, path):
+        cc.sk['reach'] = c
+        return []
+
+    def eg_l1(lc):
+        c, h, he = lc.c, lc.h, lc.h_entry
+        scc = c.sk['scc']
+        E, hS, yR = scc.sk['E'], scc.h1, scc.yR
+        sg = lc.env['subgraph'].t
+        A = h.set_of(lc.env['T'].t)
+        r = z3.Int('r!eg')
+        x, y, u, a, b = X(), X('y'), X('u'), X('a'), X('b')
+        C = lambda q: hS.set_of(q)     # noqa
+        return loop_common(lc, acc='T') + [
+            ('acc_after_components', lc.env['T'].t >= hS.alloc),
+            ('components_unchanged', z3.ForAll([r], z3.Implies(yR[r], h.set_of(r) == C(r)))),
+            ('subgraph_edges', hp.FA([a, b], edge(h, sg, a, b) == E[a, b], [succ(h, sg, a)[b], E[a, b]])),
+            ('subgraph_wf', wfG(h, sg)),
+            ('T_sound', z3.ForAll([x], z3.Implies(A[x], z3.And(V(h, sg)[x], z3.Exists([u], z3.And(A[u], E[u, x])))))),
+            ('T_complete_so_far', z3.ForAll([r, x, y], z3.Implies(
+                z3.And(lc.seen[r], C(r)[x], C(r)[y], z3.Or(x != y, E[x, x])), A[x]))),
+        ]
+
+    def eg_view(c, path):
+        f, k = c.formula.t, c.kripke.t
+        if 'T' not in path.env:
+            raise KeyError('memo hit: no cut needed')
+        scc, rc = c.sk['scc'], c.sk['reach']
+        return f, k, kid0(kid0(f)), c.sk['Ephi'], scc.sk['E'], c.h1.set_of(c.res.t)
+
+    def eg_cut_converse_edges(c, path):
+        f, k, phi, Ep, E, R = eg_view(c, path)
+        a, b = hp._a, hp._b
+        return z3.ForAll([a, b], E[a, b] == Ep[b, a])
+
+    def eg_cut_converse_instance(c, path):
+        f, k, phi, Ep, E, R = eg_view(c, path)
+        return hp.RTC_CONVERSE, [E, Ep]
+
+    def eg_cut_converse_closure(c, path):
+        f, k, phi, Ep, E, R = eg_view(c, path)
+        x, y = X(), X('y')
+        return z3.ForAll([x, y], hp.rtc(E)[x, y] == hp.rtc(Ep)[y, x], patterns=[hp.rtc(E)[x, y], hp.rtc(Ep)[y, x]])
+
+    def eg_cut_postfix(c, path):
+        # the antecedent of the greatest-fixpoint principle at Z := result (same syntax)
+        f, k, phi, Ep, E, R = eg_view(c, path)
+        inst = z3.substitute_vars(eg_gfp_schema(c.formula.t, eg_edge(c)).body(), R)
+        return inst.arg(0)
+
+    def eg_cut_gfp_instance(c, path):
+        f, k, phi, Ep, E, R = eg_view(c, path)
+        return eg_gfp_schema(c.formula.t, eg_edge(c)), [R]
+
+    def eg_cut_sound(c, path):
+        f, k, phi, Ep, E, R = eg_view(c, path)
+        s = X('s')
+        return z3.ForAll([s], z3.Implies(R[s], sat(f)[s]), patterns=[R[s]])
+
+    def eg_cut_cycle_nodes(c, path):
+        f, k, phi, Ep, E, R = eg_view(c, path)
+        s = X('s')
+        return z3.ForAll([s], z3.Implies(sat(f)[s], R[cyc_node(f, s)]), patterns=[sat(f)[s]])
+
+    def eg_cut_closed(c, path):
+        # the antecedent of the induction principle at (E, Z := result), same syntax
+        f, k, phi, Ep, E, R = eg_view(c, path)
+        return z3.substitute_vars(hp.RTC_INDUCTION.body(), R, E).arg(0)
+
+    def eg_cut_induction_instance(c, path):
+        f, k, phi, Ep, E, R = eg_view(c, path)
+        return hp.RTC_INDUCTION, [E, R]
+
+    def eg_cut_component_has_cycle(c, path):
+        # loop body: in a component with two different members every member has a predecessor in
+        # the component (the last step of a path from one of the two)
+        scc = c.sk['scc']
+        E, hS = scc.sk['E'], scc.h1
+        e1, e2 = path.ghosts['len_witnesses']
+        C = hS.set_of(path.env['scc'].t)
+        x = X()
+        l1, l2 = hp.rtc_last(E, e1, x), hp.rtc_last(E, e2, x)
+        return z3.Implies(z3.And(C[e1], C[e2], e1 != e2),
+                          z3.ForAll([x], z3.Implies(C[x], z3.Or(z3.And(C[l1], E[l1, x]), z3.And(C[l2], E[l2, x]))),
+                                    patterns=[C[x]]))
+
+    def eg_cut_complete(c, path):
+        f, k, phi, Ep, E, R = eg_view(c, path)
+        s = X('s')
+        return z3.ForAll([s], z3.Implies(sat(f)[s], R[s]), patterns=[sat(f)[s]])
+
+    EG_CUTS = [eg_cut_converse_edges, eg_cut_converse_instance, eg_cut_converse_closure, eg_cut_postfix,
+               eg_cut_gfp_instance, eg_cut_sound, eg_cut_cycle_nodes, eg_cut_closed, eg_cut_induction_instance, eg_cut_complete]
+
     reg(Contract(
         '_checkEG', 'ctl', PARAMS, ret='set',
-        requires=lambda c: common_requires(c, lambda f: z3.And(is_tag(f, 'E'), is_tag(kid0(f), 'G'))),
+        requires=eg_requires, skolems=eg_skolems,
         ensures=common_ensures, frame=memo_frame, may_write=memo_may_write,
-        touches=TOUCH, owner='C01', assumed=True,
-        note='body relies on compute_SCCs (bounded, C12) and TB4; bounded stand-in only'))
+        touches=TOUCH, loop_touches={1: {'sets'}}, loops={1: eg_l1},
+        hints={'call': {'compute_SCCs': eg_scc_hint, 'DiGraph.get_reachable_set_from': eg_reach_hint},
+               'schemas': ('gfp_principle', 'rtc_induction', 'rtc_converse'),
+               'heavy_requires': ('kripke_wf', 'Ephi_def', 'finite_structure_cycle_lemma', 'memo_inv'),
+               'slice_more_main': r'^loop1:(T_sound|T_complete|subgraph_|components_)',
+               # facts about the constructed graph, the components and the accumulator do not need the semantics axioms
+               'slice_heavy': r':(subgraph_|components_|T_sound|T_complete|acc_after|memo_inv:preserved|since_entry|:cut[13789]$|:cut10$)',
+               'cuts': {'ensures:result_is_sat': EG_CUTS, 'ensures:memo_inv': EG_CUTS,
+                        'loop1:T_sound:preserved': [eg_cut_component_has_cycle]}}, owner='C01'))
 
 
 def install_ctls(E):
